@@ -92,7 +92,7 @@ func (rc *redCtx) reduced(t *T) (bool, string) {
 		}
 	case "ext":
 		// first result of Pop
-		if t.C == 1 && t.A[0].Op == "call" && c.a.Pop != nil && t.A[0].S == fnKey(c.a.Pop) {
+		if t.C == 1 && c.isPopCall(t.A[0]) {
 			return true, "popped program counter (I2)"
 		}
 	}
